@@ -12,6 +12,7 @@ CONTRACT_MODULES = [
     "contracts.elements",
     "contracts.pdu_integrity",
     "contracts.burst",
+    "contracts.tx",
 ]
 
 TRUSTED_BASE = [
@@ -72,5 +73,11 @@ PROPS = {
         level_text="Proof per (payload kind, data sync pattern) with symbolic colour code and symbolic payload fields: the library's own assembly idiom -> 33 octets -> Burst.from_bytes gives the same data type, colour code, sync pattern, payload bits and every payload attribute (typed view for rate blocks), identical re-serialisation, slot parity ok; all 2^216 vocoder payloads around each voice sync pattern, and around valid EMB (any cc / PI / LCSS) with any 32 embedded bits, survive parse-then-serialise bit for bit.",
         level_note="Quick tier: every payload kind with one of the four data sync patterns (rotating) plus all four for two kinds; thorough: all kind x sync combinations. Rate 3/4 goes through the C10 loop contract of the trellis decoder (stub with call-site obligation); CRC bit-serial tail through C05. Feature set id of CSBK / LC payloads is a literal (0) here - its totality is C03's.",
         explanation="contracts Burst.assemble_parse / voice_sync / voice_emb",
+    ),
+    "C07": dict(
+        level_text="Proof per configuration (rate x confirmed x literal payload length x preamble count) with symbolic payload octets, colour code and addresses: generator -> as_bytes -> Burst.from_bytes -> Transmission.process_packet yields exactly one started and one data-ended event, all data blocks, data = payload followed by the announced pad octets (fragmentation arithmetic re-derived independently), trailing CRC-32 equal to the spec remainder over that data, every confirmed block crc9_ok, preamble count-down correct on both sides.",
+        level_note="Quick tier: the block-boundary neighbourhoods of the first three blocks for each of the 6 rate/mode configurations with symbolic contents, plus three long payloads per configuration (up to 1500 octets / 127 blocks) with LITERAL payload bytes (only colour code and addresses symbolic) - the block arithmetic is what varies there. Thorough: every length up to three blocks symbolic, every 7th length to 1500 literal. Lengths whose block count exceeds the header's 7-bit field are outside the precondition. BPTC decoder inside the receiver: through its contract (codeword the encoder produced -> message; anything else -> some 96 bits, over-approximation); trellis decoder loop and CRC bit-serial tail through their contracts.",
+        explanation="contract Transmission.generated_is_received",
+        bounded_parts=[dict(what="payload contents of the long (>3 blocks) transmissions", bound="one literal byte pattern per length", contract="Transmission.generated_is_received[symbolic=False]")],
     ),
 }
